@@ -14,6 +14,8 @@ compared with the TickPlan of DESIGN.md section 2/E5:
              every STEP passes the control on
   SIBLINGS   the Python and C++ plans are equal after normalisation
 """
+import ast
+
 from .. import core, rtmodel, cppast
 
 META = dict(level="other", trusted_base=["clang++-14 front end"],
@@ -255,6 +257,29 @@ def run(ctx: core.Ctx) -> int:
     for k, t in traces.items():
         ctx.oblige("SIBLINGS", f"{k}", f"trace {t}", t == ref, file=HDR if k != "python" else PYF, func="tick", construct=f"sibling trace {k.split()[0]}",
                    msg=f"the call skeleton of {k} is {t}, Python's is {ref}")
+    # INIT: the history starts where the caller says: every user-written constructor of the managed filter reads each of its parameters (start time, initial
+    # estimate, calibration) -- C++ by clang's use marking on the instantiated constructors, Python by the names __init__ reads
+    ctx.rule("INIT", "every constructor of the managed filter uses each of its parameters (start time, initial estimate, calibration)")
+    _ir0 = rtmodel.cpp_runtime_ir(ctx)
+    n_ct = 0
+    for _val in ("v00", "v01", "v10", "v11"):
+        for _ps, _line in (_ir0.get(_val) or {}).get("ctors", []):
+            n_ct += 1
+            _unused = [n_ for n_, u_ in _ps if n_ and not u_]
+            ctx.oblige("INIT", f"{HDR}:ManagedFilter::ManagedFilter/{len(_ps)} [{_val}]", f"parameters {[n_ for n_, _ in _ps]} all read", not _unused, file=HDR,
+                       func=f"ManagedFilter::ManagedFilter/{len(_ps)}", construct="unused constructor parameter:" + ",".join(_unused), line=_line,
+                       msg=f"the constructor never reads its parameter(s) {_unused}: the filter starts from a default instead of what the caller supplied "
+                           f"(a start time of 0 makes the first tick propagate from the wrong time)")
+    _rel_i, _cls_i = rtmodel.py_runtime(ctx)
+    _ini = core.find_func(_cls_i, "__init__")
+    if _ini is not None:
+        n_ct += 1
+        _read = {x_.id for x_ in ast.walk(_ini) if isinstance(x_, ast.Name) and isinstance(x_.ctx, ast.Load)}
+        _unused = [a_.arg for a_ in _ini.args.args[1:] + _ini.args.kwonlyargs if a_.arg not in _read]
+        ctx.oblige("INIT", f"{_rel_i}:ManagedFilter.__init__", "parameters all read", not _unused, file=_rel_i, func="ManagedFilter.__init__",
+                   construct="unused constructor parameter:" + ",".join(_unused),
+                   msg=f"ManagedFilter.__init__ never reads its parameter(s) {_unused}")
+    ctx.floor("INIT", n_ct, 3, "constructors (4 C++ instantiations + Python)")
     return core.finish(ctx, explanation="E5: ordered event lists of every tick body vs the TickPlan; effect analysis of held fields", **META)
 
 
